@@ -39,7 +39,11 @@ CONSTANTS RaceHandoff,      \* TRUE: a listener's hand-off may still win its sel
           LatchAck,         \* the code: TRUE. forwardAcks' deferred Shutdown()
           CloseSendOnExit,  \* the code: TRUE. forwardAcks' deferred CloseSend()
           CancelOnReturn,   \* the code: TRUE. Run's deferred cancel()
-          FmsgWakesOnLatch  \* the code: TRUE. forwardReplicationMessages selects on the latch as well as on the data channel
+          FmsgWakesOnLatch, \* the code: TRUE. forwardReplicationMessages selects on the latch as well as on the data channel
+          NetCap,           \* 0: Send never waits.  n > 0: back-pressure - a Send of the proxy waits while n messages are in flight
+                            \* towards that peer (a slow peer: HTTP/2 flow control); it ends when the peer reads or the stream dies
+          HandoffTimeout    \* the code: FALSE. a listener waits for its consumer (or the latch) as long as it takes.  TRUE: a
+                            \* variant whose hand-off gives up after a while and goes back to Recv - the value in hand is lost
 
 EOF == 0      \* end markers in the queues; messages are 1, 2, ...
 ERR == -1
@@ -80,6 +84,7 @@ UnkMsg(n) == script.fault.k = "unkMsg" /\ n = script.fault.p
 UnkAck(n) == script.fault.k = "unkAck" /\ n = script.fault.p
 \* the context of the proxy's stream to the source: derived from the server stream's context (done when the initiator's
 \* cancel arrived or the handler returned), cancelled by Run's deferred cancel
+RoomFor(q) == NetCap = 0 \/ Len(SelectSeq(q, LAMBDA x : x > 0)) < NetCap
 SrcCtxDone == iniCancelSeen \/ run = "returned" \/ (CancelOnReturn /\ run = "cancelled")
 TornDown == run = "returned" /\ iniSawEnd /\ srcSt \in {"idle", "returned"}
 Delivered == iniIn = srcOut /\ srcIn = iniOut
@@ -180,6 +185,10 @@ LsrcQuit ==     \* select { case <-shutdownChan.Channel(): return }
   /\ lsrc = "send" /\ latch /\ lsrc' = "done" /\ lsv' = 0
   /\ UNCHANGED <<env, net, hist, run, latch, ltgt, ltv, fmsg, fmv, fack, fav, nT, nS>>
 
+LsrcTimeout ==  \* (variant) the hand-off gives up: back to the loop head, the value is gone
+  /\ HandoffTimeout /\ lsrc = "send" /\ lsrc' = "chk" /\ lsv' = 0
+  /\ UNCHANGED <<env, net, hist, run, latch, ltgt, ltv, fmsg, fmv, fack, fav, nT, nS>>
+
 (* forwardReplicationMessages                                               *)
 FmsgStart ==    \* dataChan := startListener(f.sourceStreamClient, f.shutdownChan)
   /\ fmsg = "start" /\ fmsg' = "select" /\ lsrc' = "chk"
@@ -196,7 +205,7 @@ FmsgSend ==     \* f.targetStreamServer.Send(resp)
   /\ LET injected == script.fault.k = "tgtSendFail" /\ nT + 1 = script.fault.p IN
      IF iniCancelSeen \/ injected
      THEN fmsg' = "ret" /\ ended' = (ended \/ injected) /\ UNCHANGED p2i
-     ELSE fmsg' = "select" /\ p2i' = Append(p2i, fmv) /\ UNCHANGED ended
+     ELSE RoomFor(p2i) /\ fmsg' = "select" /\ p2i' = Append(p2i, fmv) /\ UNCHANGED ended
   /\ UNCHANGED <<script, epc, srcSt, srcSawEnd, iniSt, iniSawEnd, iniCancelSeen, connClosed, s2p, i2p, p2s, hist,
                  run, latch, lsrc, lsv, ltgt, ltv, fmv, fack, fav, nS>>
 FmsgRet ==      \* deferred: f.shutdownChan.Shutdown(); wg.Done()
@@ -221,6 +230,10 @@ LtgtQuit ==
   /\ ltgt = "send" /\ latch /\ ltgt' = "done" /\ ltv' = 0
   /\ UNCHANGED <<env, net, hist, run, latch, lsrc, lsv, fmsg, fmv, fack, fav, nT, nS>>
 
+LtgtTimeout ==
+  /\ HandoffTimeout /\ ltgt = "send" /\ ltgt' = "chk" /\ ltv' = 0
+  /\ UNCHANGED <<env, net, hist, run, latch, lsrc, lsv, fmsg, fmv, fack, fav, nT, nS>>
+
 (* forwardAcks                                                              *)
 FackStart ==
   /\ fack = "start" /\ fack' = "select" /\ ltgt' = "chk"
@@ -238,7 +251,7 @@ FackSend ==     \* f.sourceStreamClient.Send(req)
         /\ fack' = "ret" /\ ended' = (ended \/ injected) /\ UNCHANGED p2s
      \/ /\ ~(SrcCtxDone \/ connClosed \/ injected)
         /\ fack' = "select" /\ UNCHANGED ended
-        /\ IF srcSt = "returned" THEN UNCHANGED p2s ELSE p2s' = Append(p2s, fav)     \* finished stream: may also be lost silently
+        /\ IF srcSt = "returned" THEN UNCHANGED p2s ELSE RoomFor(p2s) /\ p2s' = Append(p2s, fav)     \* finished stream: may also be lost silently
   /\ UNCHANGED <<script, epc, srcSt, srcSawEnd, iniSt, iniSawEnd, iniCancelSeen, connClosed, s2p, p2i, i2p, hist,
                  run, latch, lsrc, lsv, ltgt, ltv, fmsg, fmv, fav, nT>>
 FackRet ==      \* deferred: f.shutdownChan.Shutdown()
@@ -251,8 +264,8 @@ FackCloseSend == \* deferred: CloseSend() (bounded by 1 s); wg.Done()
 
 Next == \/ EnvStep \/ SrcRecv \/ SrcReturnOnEnd \/ IniRecv \/ IniCancelArrives
         \/ RunOpen \/ RunCancel \/ HandlerReturn
-        \/ LsrcChk \/ LsrcRecv \/ LsrcHandoff \/ LsrcQuit \/ FmsgStart \/ FmsgShutdown \/ FmsgGot \/ FmsgSend \/ FmsgRet
-        \/ LtgtChk \/ LtgtRecv \/ LtgtHandoff \/ LtgtQuit \/ FackStart \/ FackShutdown \/ FackGot \/ FackSend \/ FackRet \/ FackCloseSend
+        \/ LsrcChk \/ LsrcRecv \/ LsrcHandoff \/ LsrcQuit \/ LsrcTimeout \/ FmsgStart \/ FmsgShutdown \/ FmsgGot \/ FmsgSend \/ FmsgRet
+        \/ LtgtChk \/ LtgtRecv \/ LtgtHandoff \/ LtgtQuit \/ LtgtTimeout \/ FackStart \/ FackShutdown \/ FackGot \/ FackSend \/ FackRet \/ FackCloseSend
 Spec == Init /\ [][Next]_vars /\ WF_vars(Next)
 
 ----------------------------------------------------------------------------
